@@ -66,6 +66,8 @@ type deferred struct {
 type loopSnap struct {
 	measure []*Term
 	st      *State
+	env     map[ssa.Value]Value // register values at the loop head (for prev(...) in step clauses)
+	names   map[string]ssa.Value
 }
 
 func (f *Frame) clone() *Frame {
@@ -832,6 +834,16 @@ func (x *Exec) loopEnter(fr *Frame, st *State, h *ssa.BasicBlock, ord int) {
 		}
 	}
 	snap := &loopSnap{st: st.clone()}
+	if lc != nil && len(lc.Steps) > 0 {
+		snap.env = make(map[ssa.Value]Value, len(fr.env))
+		for k, v := range fr.env {
+			snap.env[k] = v
+		}
+		snap.names = make(map[string]ssa.Value, len(fr.names))
+		for k, v := range fr.names {
+			snap.names[k] = v
+		}
+	}
 	if lc != nil && lc.Decreases != nil {
 		v := x.evalSpec(&specScope{x: x, fr: fr, st: st, old: fr.entry}, lc.Decreases.Expr)
 		snap.measure = []*Term{x.toInt64(v)}
@@ -1029,6 +1041,15 @@ func (x *Exec) loopBack(fr *Frame, st *State, h *ssa.BasicBlock, ord int) {
 	for _, inv := range lc.Invariants {
 		v := x.evalSpec(&specScope{x: x, fr: fr, st: st, old: fr.entry}, inv.Expr)
 		x.oblige(fr, st, "inv.pres", label+":"+inv.Label, pos, v.L[0])
+	}
+	if snap := fr.loopSnap[h]; snap != nil && snap.env != nil {
+		// step clauses: what one iteration does, relating the state at its head (prev) to the state now
+		pfr := *fr
+		pfr.env, pfr.names = snap.env, snap.names
+		for _, sc := range lc.Steps {
+			v := x.evalSpec(&specScope{x: x, fr: fr, st: st, old: fr.entry, prevFr: &pfr, prevSt: snap.st}, sc.Expr)
+			x.oblige(fr, st, "step", label+":"+sc.Label, pos, v.L[0])
+		}
 	}
 	if lc.Decreases != nil {
 		snap := fr.loopSnap[h]
